@@ -697,7 +697,7 @@ func (ip *Interp) runClosure(fn *ssa.Function, args []any, binds []any, depth in
 							if nt, isNamed := x.X.Type().Underlying().(*types.Pointer).Elem().(*types.Named); isNamed {
 								if _, isSt := nt.Underlying().(*types.Struct); isSt {
 									if _, occupied := fa.st.fields[fa.field]; !occupied {
-										inner = &iStruct{typ: nt, fields: map[int]any{}, val: true}
+										inner = &iStruct{typ: nt, fields: map[int]any{}, val: true, zeroed: fa.st.zeroed} // part of a zeroed allocation: zeroed itself
 										fa.st.fields[fa.field] = inner
 										have = true
 									}
@@ -1335,6 +1335,29 @@ func foldAny(op token.Token, l, r any) (any, bool) {
 	}
 	if op != token.EQL && op != token.NEQ {
 		return nil, false
+	}
+	// two struct values: equal when all their fields are (known constants, or struct values in turn)
+	if lo, isLO := l.(*iStruct); isLO && lo.val {
+		if ro, isRO := r.(*iStruct); isRO && ro.val && lo.structType() != nil && lo.structType() == ro.structType() {
+			st := lo.structType()
+			eq := true
+			for i := 0; i < st.NumFields(); i++ {
+				a, okA := lo.field(i)
+				b, okB := ro.field(i)
+				if !okA || !okB {
+					return nil, false
+				}
+				v, ok := foldAny(token.EQL, a, b)
+				c, isC := v.(constant.Value)
+				if !ok || !isC || c.Kind() != constant.Bool {
+					return nil, false
+				}
+				if !constant.BoolVal(c) {
+					eq = false
+				}
+			}
+			return constant.MakeBool(eq == (op == token.EQL)), true
+		}
 	}
 	// two abstract heap objects: identity
 	if lo, isLO := l.(*iStruct); isLO && !lo.val {
